@@ -19,11 +19,12 @@ func main() {
 		helperMain(os.Args[2:])
 		return
 	}
-	mode := flag.String("mode", "log", "log | env | proc")
+	mode := flag.String("mode", "log", "log | env | proc | reload")
 	seed := flag.Uint64("seed", 1, "seed")
 	n := flag.Int("n", 4, "rounds")
 	out := flag.String("out", "", "output file")
 	defsFile := flag.String("defs", "", "probe mode: JSON file with pipeline definitions")
+	walk := flag.String("walk", "", "reload mode: one round with this walk over the definition versions (a,b,c), comma separated")
 	flag.Parse()
 	outFile = os.Stdout
 	if *out != "" {
@@ -52,6 +53,8 @@ func main() {
 		probeMode(*defsFile)
 	case "proc":
 		procMode(*seed, *n)
+	case "reload":
+		reloadMode(*seed, *n, *walk)
 	default:
 		fmt.Fprintln(os.Stderr, "unknown mode")
 		os.Exit(2)
